@@ -127,7 +127,9 @@ class Gen:
                 b = ("n", str(r.randint(2, 9)))
             return ("b", op, a, b)
         if k < 0.60:
-            return ("b", r.choice(["=", "<", ">", "<=", ">=", "<>"]), self.cexpr(depth - 1, ctx), self.cexpr(depth - 1, ctx))
+            a = self.cexpr(depth - 1, ctx)
+            b = a if r.random() < 0.15 else self.cexpr(depth - 1, ctx)
+            return ("b", r.choice(["=", "<", ">", "<=", ">=", "<>"]), a, b)
         if k < 0.68:
             return ("b", r.choice(["AND", "OR", "XOR"]), self.iexpr(depth - 1, ctx), self.iexpr(depth - 1, ctx))
         if k < 0.72:
@@ -172,7 +174,9 @@ class Gen:
         if k < 0.65:
             return ("raw", "INSTR(%s, %s)" % (self.pr(self.sexpr(depth, ctx), 6), self.pr(self.sexpr(0, ctx), 6)), 6)
         if k < 0.8:
-            return ("b", r.choice(["=", "<", ">", "<=", ">=", "<>"]), self.sexpr(depth, ctx), self.sexpr(depth, ctx))
+            a = self.sexpr(depth, ctx)
+            b = a if r.random() < 0.3 else self.sexpr(depth, ctx)      # equal operands exercise the boundary of <= >= <>
+            return ("b", r.choice(["=", "<", ">", "<=", ">=", "<>"]), a, b)
         inner = self.pr(self.cexpr(min(depth, 2), dict(ctx, novar=True, loopvars=[], loopranges={})), 0)
         if '"' in inner or "$" in inner or "(" in inner and "q" in inner:
             inner = "1 + 2 * 3"
@@ -541,6 +545,16 @@ CORPUS = [
      "130 PUNCH 130", "140 RESTORE 160 : READ a, b$ : PUNCH a, b$", "150 DATA 1, 2", "160 DATA 3 + 4, 'q' + \"r\"", "170 END",
      "200 k = k + 10 : PUNCH k : RETURN"],
 ]
+
+def _relation_matrix():
+    ops = ["=", "<", ">", "<=", ">=", "<>"]
+    l1 = "10 PUNCH " + ", ".join('"%s" %s "%s"' % (a, o, b) for o in ops for a, b in (("ab", "ab"), ("ab", "b"), ("b", "ab"), ("", ""), ("a", "")))
+    l2 = "20 PUNCH " + ", ".join("%s %s %s" % (a, o, b) for o in ops for a, b in (("2", "2"), ("1", "2"), ("2", "1"), ("-1", "0.5"), ("0", "-0")))
+    l3 = "30 a$ = \"x\" : b$ = \"x\" : PUNCH " + ", ".join("a$ %s b$" % o for o in ops)
+    return [l1, l2, l3]
+
+
+CORPUS.append(_relation_matrix())
 
 MALFORMED_CORPUS = [
     ["10 PUNCH (1 + 2"], ["10 PUNCH 1 + 2)"], ["10 PUNCH \"abc"], ["10 PUNCH 1 2"], ["10 x = = 1"], ["10 IF 1 PUNCH 2"],
